@@ -22,6 +22,8 @@ def snap_eq(a, b, allow_g2o):
         if len(a[1]) != len(b[1]):
             return False
         return zand([zand([str_eq(k1, k2), snap_eq(v1, v2, allow_g2o)]) for (k1, v1), (k2, v2) in zip(a[1], b[1])])
+    if hasattr(a, "_fields") or hasattr(b, "_fields"):
+        return veq(a, b)              # Quantity (a named tuple): value and units
     if isinstance(a, list) and isinstance(b, list):
         if len(a) != len(b):
             return False
@@ -81,8 +83,8 @@ def obligations(tier):
     nmax = 1 if tier == "quick" else 2
     for dia in ("PVL", "ODL", "PDS3", "ISIS"):
         for shape in rt.SHAPES:
-            if shape in ("quant", "wrapunits"):
-                continue
+            if shape == "wrapunits":
+                continue              # its leaf is an integer
             for n in range(0, nmax + 1):
                 obs.append(Repeat(dialect=dia, shape=shape, n=n, cfg="default", entry="encode"))
             obs.append(Repeat(dialect=dia, shape=shape, n=1, cfg="default", entry="dumps"))
